@@ -78,9 +78,18 @@ inductive Range
   | float32 | float64
 deriving DecidableEq, Repr, Inhabited
 
+/-- the basic types CUE source can name (`null` is the atom; `_` is top) -/
+inductive BType | bool | int | float | number | string | bytes | top
+deriving DecidableEq, Repr, Inhabited
+
+/-- `BasicType.K` -/
+def BType.kind : BType → Kind
+  | .bool => Kind.bool | .int => Kind.int | .float => Kind.float | .number => Kind.number
+  | .string => Kind.string | .bytes => Kind.bytes | .top => Kind.top
+
 inductive Constraint
   | atom (a : Atom)
-  | type (k : Kind)            -- BasicType: one of the Kind.* masks
+  | type (t : BType)
   | bound (b : Bound)
   | range (r : Range)
 deriving DecidableEq, Repr, Inhabited
@@ -172,13 +181,13 @@ inductive Outcome | keepX | keepY | both | err
 deriving DecidableEq, Repr, Inhabited
 
 /-- "Readjust bounds for integers": `>=3.4 ⇒ >=4`, `>3.4 ⇒ >3` (only when `k&FloatKind == 0`
-and the operand has a negative exponent) -/
-def adjLo (k : Kind) (xop : Op) (a : Dec) : Dec :=
-  if !k.hasFloat && a.exp < 0 then (if xop == .ge then Dec.ceil34 a else Dec.floor34 a) else a
+and the operand has a negative exponent); `none` = `Ceil/Floor` reported Inexact → `break` -/
+def adjLo (k : Kind) (xop : Op) (a : Dec) : Option Dec :=
+  if !k.hasFloat && a.exp < 0 then (if xop == .ge then Dec.ceil34? a else Dec.floor34? a) else some a
 
 /-- `<=2.3 ⇒ <=2`, `<2.3 ⇒ <3` -/
-def adjHi (k : Kind) (yop : Op) (b : Dec) : Dec :=
-  if !k.hasFloat && b.exp < 0 then (if yop == .le then Dec.floor34 b else Dec.ceil34 b) else b
+def adjHi (k : Kind) (yop : Op) (b : Dec) : Option Dec :=
+  if !k.hasFloat && b.exp < 0 then (if yop == .le then Dec.floor34? b else Dec.ceil34? b) else some b
 
 /-- the comparison of the (adjusted) ends: fast path, `Sub` with the Inexact escape, the sign
 and the values 0 and 1 of the difference (`d.Int64()`; the value 2 never changes the result) -/
@@ -201,7 +210,9 @@ def numOppCore (k : Kind) (xop yop : Op) (lo hi : Dec) : Outcome :=
 /-- the numeric opposite-direction cell (`xCat == -yCat`, operands `*Num`), after the swap that
 makes `x` the lower and `y` the upper bound -/
 def simplifyNumOpp (k : Kind) (xop yop : Op) (a b : Dec) : Outcome :=
-  numOppCore k xop yop (adjLo k xop a) (adjHi k yop b)
+  match adjLo k xop a, adjHi k yop b with
+  | some lo, some hi => numOppCore k xop yop lo hi
+  | _, _ => .both
 
 /-- the string / bytes opposite-direction cells, after the swap -/
 def simplifyStrOpp (xop yop : Op) (c : Ordering) : Outcome :=
@@ -366,12 +377,12 @@ def Range.expand (r : Range) : List Constraint :=
   match r.intSpec with
   | none => [.bound ⟨.ge, .float r.floatMax.neg⟩, .bound ⟨.le, .float r.floatMax⟩]
   | some (lo, hi) =>
-    [.type Kind.int, .bound ⟨.ge, .int lo⟩] ++
+    [.type .int, .bound ⟨.ge, .int lo⟩] ++
       (match hi with | some h => [.bound ⟨.le, .int h⟩] | none => [])
 
 def insertBasic (re : Bytes → Bytes → Bool) (n : SNode) : Constraint → SNode
   | .atom a => insertAtom re n a
-  | .type k => insertType re n k
+  | .type t => insertType re n t.kind
   | .bound b => insertBound re n b
   | .range _ => n
 
